@@ -120,14 +120,14 @@ Definition pinj (F : list tree) : Prop :=
 Lemma NoDup_map_same {A B C} (f : A -> B) (g : A -> C) l :
   NoDup (map f l) -> (forall x y, In x l -> In y l -> g x = g y -> f x = f y) -> NoDup (map g l).
 Proof.
-  induction l as [|a r IH]; simpl; intros ND H; [constructor|]. inversion ND; subst. constructor.
+  induction l as [|a r IH]; simpl; intros ND H; [constructor|]. inversion ND as [|? ? H1 H2]; subst. constructor.
   - intro Hin. apply in_map_iff in Hin as [y [Ey Hy]]. apply H1. rewrite (H a y); [apply in_map; exact Hy | left; reflexivity | right; exact Hy | symmetry; exact Ey].
   - apply IH; [assumption|]. intros; apply H; try (right; assumption); assumption.
 Qed.
 
 Lemma NoDup_map_in_inj {A B} (f : A -> B) l x y : NoDup (map f l) -> In x l -> In y l -> f x = f y -> x = y.
 Proof.
-  induction l as [|a r IH]; simpl; intros ND Hx Hy E; [contradiction|]. inversion ND; subst.
+  induction l as [|a r IH]; simpl; intros ND Hx Hy E; [contradiction|]. inversion ND as [|? ? H1 H2]; subst.
   destruct Hx as [Hx|Hx], Hy as [Hy|Hy]; subst; try reflexivity.
   - exfalso. apply H1. rewrite E. apply in_map. exact Hy.
   - exfalso. apply H1. rewrite <- E. apply in_map. exact Hx.
@@ -136,7 +136,7 @@ Qed.
 
 Lemma NoDup_map_ids F : NoDup (fids F) -> NoDup (map t_id F).
 Proof.
-  induction F as [|t r IH]; simpl; intro ND; [constructor|]. rewrite fids_cons in ND. constructor.
+  induction F as [|t r IH]; intro ND; [constructor|]. cbn [map]. rewrite fids_cons in ND. constructor.
   - intro Hin. apply in_map_iff in Hin as [y [Ey Hy]].
     eapply (NoDup_app_disj (tids t) (fids r)); [exact ND | apply tids_self|]. rewrite <- Ey. apply in_fids. exists y. split; [exact Hy | apply tids_self].
   - apply IH. eapply NoDup_app_r; exact ND.
